@@ -152,9 +152,13 @@ func (c *Ctx) normalisedHash() {
 		return
 	}
 	// returns: either the cached field (only on the non-normalising edge) or the hash of the fresh cell
+	// the canonical cell is built in Message.Hash or in the unexported helper it hands the work to
 	var nc *ssa.Call
-	for _, cl := range callsTo(f, bocPath+".NewCell") {
-		nc = cl
+	host := f
+	for _, g := range c.helperClosure(f, 1, func(h *ssa.Function) bool { return plainHelper(h) == nil }) {
+		for _, cl := range callsTo(g, bocPath+".NewCell") {
+			nc, host = cl, g
+		}
 	}
 	if nc == nil {
 		c.bad(R, "canonical cell is built", f.Pos(), "Message.Hash no longer builds a canonical cell")
@@ -205,11 +209,11 @@ func (c *Ctx) normalisedHash() {
 	}
 	c.check(okEdge, R, "the cached hash is returned only when no normalisation applies", f.Pos(), "only the !normalizeExternal / not-ext-in edges lead to the cached return", "Message.Hash(true) can return the cached (non-normalised) hash for an external-in message on some path: the normalised hash would then depend on source, import fee, init or body placement")
 	// contents of the canonical cell: constants, Dest, Body.Value only
-	ws := cellWrites(f, nc)
+	ws := cellWrites(host, nc)
 	var evs []string
 	bad := []string{}
 	for _, w := range ws {
-		evs = append(evs, c.eventOf(f, w))
+		evs = append(evs, c.eventOf(host, w))
 		for _, a := range w.Call.Args[1:] {
 			for _, forbidden := range []string{"Src", "ImportFee", "Init", "IsRight"} {
 				if derivesFrom(a, fieldLoadNamed(forbidden), true) || derivesFrom(a, func(v ssa.Value) bool { _, fn, ok := fieldOf(v); return ok && fn == forbidden }, true) {
@@ -220,7 +224,7 @@ func (c *Ctx) normalisedHash() {
 	}
 	// MarshalTLB of Dest into the cell
 	dest := false
-	allInstrs(f, func(_ *ssa.BasicBlock, in ssa.Instruction) {
+	allInstrs(host, func(_ *ssa.BasicBlock, in ssa.Instruction) {
 		if cl, ok := in.(*ssa.Call); ok && callQName(&cl.Call) == tlbPath+".MsgAddress.MarshalTLB" {
 			if derivesFrom(cl.Call.Args[0], func(v ssa.Value) bool { _, fn, ok := fieldOf(v); return ok && fn == "Dest" }, false) && cl.Call.Args[1] == ssa.Value(nc) {
 				dest = true
